@@ -23,6 +23,7 @@ import (
 	"github.com/libp2p/go-libp2p/core/event"
 	"github.com/libp2p/go-libp2p/core/network"
 	"github.com/libp2p/go-libp2p/core/peer"
+	"github.com/libp2p/go-libp2p/core/transport"
 	"github.com/libp2p/go-libp2p/internal/vfh"
 	"github.com/libp2p/go-libp2p/p2p/host/eventbus"
 	"github.com/libp2p/go-libp2p/p2p/host/peerstore/pstoremem"
@@ -96,18 +97,24 @@ func vfC06Scenario(t *testing.T, seed int64, tr *vfh.Trace) {
 	}()
 	nconns := 2 + rnd.Intn(4)
 	// how each connection ends: 0 stays until Swarm.Close, 1 closed from outside, 2 closed from inside the
-	// Connected handler of n1, 3 remote side goes away, 4 closed from outside twice concurrently
+	// Connected handler of n1, 3 remote side goes away, 4 closed from outside twice concurrently, 5 the
+	// remote resets the transport while the Connected handlers are still running (nobody calls Close)
 	fate := make([]int, nconns)
 	for i := range fate {
-		fate[i] = rnd.Intn(5)
+		fate[i] = rnd.Intn(6)
 	}
 	insideClose := map[string]bool{}
+	insideReset := map[string]*vfStubConn{}
 	n1 := &vfC06Notifiee{name: "n1", tr: tr, names: &names, yield: rnd.Intn(4)}
 	n1.onConn = func(c network.Conn, id string) {
 		if insideClose[id] {
 			tr.Emit("close_call", "c", id)
 			c.Close()
 			tr.Emit("close_ret", "c", id)
+		}
+		if stub := insideReset[id]; stub != nil {
+			tr.Emit("remote_close", "c", id)
+			stub.RemoteClose()
 		}
 	}
 	n2 := &vfC06Notifiee{name: "n2", tr: tr, names: &names, yield: rnd.Intn(4)}
@@ -132,6 +139,9 @@ func vfC06Scenario(t *testing.T, seed int64, tr *vfh.Trace) {
 		if fate[i] == 2 {
 			insideClose[id] = true
 		}
+		if fate[i] == 5 {
+			insideReset[id] = stub
+		}
 		if rnd.Intn(2) == 0 {
 			stub.Inbound <- newVfStubStream() // an inbound stream is waiting as soon as the accept loop starts
 		}
@@ -139,13 +149,37 @@ func vfC06Scenario(t *testing.T, seed int64, tr *vfh.Trace) {
 		tr.Emit("conn", "c", id, "p", pn, "lim", lim)
 	}
 	closeSwarmEarly := rnd.Intn(4) == 0
+	// Gated admission (no hook needed): addConn takes directConnNotifs right after it has registered a
+	// direct connection and before it announces it. Holding that lock pauses the admission exactly
+	// there, and something else happens in the gap: Swarm.Close, a Close of that connection, or the
+	// remote side going away.
+	gated, gateAct := "", rnd.Intn(3)
+	if rnd.Intn(3) == 0 {
+		for _, ci := range infos {
+			if !ci.stub.Limited {
+				gated = ci.id
+				break
+			}
+		}
+	}
+	if gated != "" && gateAct == 0 {
+		closeSwarmEarly = false // the gate itself closes the swarm
+	}
+	gateDone := make(chan struct{})
+	swClosedEarly := make(chan struct{})
 	var wg sync.WaitGroup
+	if gated != "" {
+		sw.directConnNotifs.Lock()
+	}
 	for _, ci := range infos {
 		wg.Add(1)
 		go func(ci *cinfo, pre, mid int) {
 			defer wg.Done()
 			for i := 0; i < pre; i++ {
 				runtime.Gosched()
+			}
+			if gated != "" && ci.id != gated && !ci.stub.Limited {
+				<-gateDone // other direct admissions wait until the gate is lifted
 			}
 			dir := network.DirInbound
 			c, err := sw.addConn(ci.stub, dir)
@@ -184,6 +218,56 @@ func vfC06Scenario(t *testing.T, seed int64, tr *vfh.Trace) {
 		tr.Emit("sw_close_ret")
 		close(swClosed)
 	}
+	if gated != "" {
+		var gstub *vfStubConn
+		for _, ci := range infos {
+			if ci.id == gated {
+				gstub = ci.stub
+			}
+		}
+		registered := func() *Conn {
+			sw.conns.RLock()
+			defer sw.conns.RUnlock()
+			for _, c := range sw.conns.m[gstub.Rp] {
+				if c.conn == transport.CapableConn(gstub) {
+					return c
+				}
+			}
+			return nil
+		}
+		var c *Conn
+		for i := 0; i < 100000 && c == nil; i++ {
+			c = registered()
+			runtime.Gosched()
+		}
+		if c != nil {
+			switch gateAct {
+			case 0: // Swarm.Close in the gap
+				go func() { closeSwarm(); close(swClosedEarly) }()
+				for i := 0; i < 100000; i++ {
+					sw.conns.RLock()
+					closedMap := sw.conns.m == nil
+					sw.conns.RUnlock()
+					if closedMap {
+						break
+					}
+					runtime.Gosched()
+				}
+			case 1: // the connection is closed by somebody who found it in the swarm
+				tr.Emit("close_call", "c", gated)
+				c.Close()
+				tr.Emit("close_ret", "c", gated)
+			case 2: // the remote side goes away
+				tr.Emit("remote_close", "c", gated)
+				gstub.RemoteClose()
+			}
+			for i := 0; i < 200; i++ {
+				runtime.Gosched()
+			}
+		}
+		sw.directConnNotifs.Unlock()
+		close(gateDone)
+	}
 	if closeSwarmEarly {
 		wg.Add(1)
 		go func(pre int) {
@@ -195,8 +279,12 @@ func vfC06Scenario(t *testing.T, seed int64, tr *vfh.Trace) {
 		}(rnd.Intn(12))
 	}
 	wg.Wait()
+	gatedClose := gated != "" && gateAct == 0
+	if gatedClose {
+		<-swClosedEarly
+	}
 	synctest.Wait() // all activity has stopped
-	if !closeSwarmEarly {
+	if !closeSwarmEarly && !gatedClose {
 		for _, pn := range []string{"p1", "p2"} {
 			st := map[network.Connectedness]string{network.Connected: "C", network.Limited: "L", network.NotConnected: "N"}[sw.Connectedness(peers[pn])]
 			var listed []string
